@@ -48,6 +48,9 @@ def make_case(rng, size):
     if rng.random() < 0.4:
         name = rng.choice(list(g.views))
         g.sb.op(op="cas.sofa_set", h=g.views[name], field="uri", v="file:///some/where.txt")
+    if rng.random() < 0.3:
+        # a type system that grows between two serialisations (every mode written once before the extension)
+        casgen.add_late_extension(g, rng, lambda h0: [{"op": "json.save", "h": h0, "mode": m} for m in ("full", "minimal", "none")])
     return g
 
 
